@@ -17,13 +17,20 @@ WORDS = ["hello", "ppci", "x", "", "determinism", "a b c", "0123456789",
 
 
 class CGen:
-    def __init__(self, ch, profile="rich"):
+    def __init__(self, ch, profile="rich", fn_prefix="f", glob_prefix="g",
+                 pointers=False):
         self.ch = ch
         self.profile = profile
+        self.fn_prefix = fn_prefix
+        self.glob_prefix = glob_prefix
+        self.pointers = pointers and profile == "rich"
         self.lines = []
         self.funcs = []  # (name, nparams)
         self.globals_ = []
         self.arrays = []
+        self.ptrs = []  # int * globals initialised with an address
+        self.strtabs = []  # char *t[n] = {"..", ..}
+        self.fptrs = []  # (name, nparams)
 
     # ---------------------------------------------------------------- exprs
     def const(self):
@@ -52,6 +59,12 @@ class CGen:
                 a, n = ch.pick(self.arrays, "arr")
                 idx = ch.pick(vars_, "idxvar") if vars_ else "1"
                 return f"{a}[({idx}) & {n - 1}]"
+            if k == 3 and self.ptrs:
+                return f"(*{ch.pick(self.ptrs, 'ptr')})"
+            if k == 2 and self.strtabs:
+                t, n = ch.pick(self.strtabs, "strtab")
+                idx = ch.pick(vars_, "stridx") if vars_ else "1"
+                return f"{t}[({idx}) & {n - 1}][0]"
             return self.const()
         k = ch.weighted([8, 2, 1, 2, 1], "exprkind")
         if k == 0:
@@ -71,6 +84,10 @@ class CGen:
             op = ch.pick(["<", ">", "==", "!=", "<=", ">="], "cmp")
             return (f"({self.expr(vars_, depth - 1)} {op} "
                     f"{self.expr(vars_, depth - 1)})")
+        if self.fptrs and ch.chance(1, 3, "viafptr"):
+            name, n = ch.pick(self.fptrs, "fptr")
+            args = ", ".join(self.expr(vars_, depth - 2) for _ in range(n))
+            return f"{name}({args})"
         if self.funcs and self.profile != "tiny":
             name, n = ch.pick(self.funcs, "callee")
             args = ", ".join(self.expr(vars_, depth - 2) for _ in range(n))
@@ -129,7 +146,7 @@ class CGen:
         tiny = self.profile == "tiny"
         nparams = ch.draw(3 if tiny else 5, "nparams")
         nlocals = 1 + ch.draw(3 if tiny else 9, "nlocals")
-        name = f"f{idx}"
+        name = f"{self.fn_prefix}{idx}"
         params = [f"p{i}" for i in range(nparams)]
         locals_ = [f"v{i}" for i in range(nlocals)]
         static = "static " if ch.chance(1, 4, "static") and idx > 0 else ""
@@ -150,10 +167,22 @@ class CGen:
         ch = self.ch
         tiny = self.profile == "tiny"
         out = []
+        gp = self.glob_prefix
         for i in range(ch.draw(4, "nglob")):
             init = f" = {self.const()}" if ch.chance(1, 2, "ginit") else ""
-            out.append(f"int g{i}{init};")
-            self.globals_.append(f"g{i}")
+            out.append(f"int {gp}{i}{init};")
+            self.globals_.append(f"{gp}{i}")
+        if self.pointers:
+            # data relocations: globals initialised with addresses
+            for i, g in enumerate(self.globals_[: ch.draw(3, "nptr")]):
+                out.append(f"int *q{i} = &{g};")
+                self.ptrs.append(f"q{i}")
+            for i in range(ch.draw(2, "nstrtab")):
+                n = ch.pick([2, 4], "strtabn")
+                vals = ", ".join(f'"{ch.pick(WORDS, "tword")}"'
+                                 for _ in range(n))
+                out.append(f"char *t{i}[{n}] = {{{vals}}};")
+                self.strtabs.append((f"t{i}", n))
         if not tiny:
             for i in range(ch.draw(3, "narr")):
                 n = ch.pick([2, 4, 8], "arrn")
@@ -168,8 +197,36 @@ class CGen:
         nfun = 1 + ch.draw(2 if tiny else 4, "nfun")
         for i in range(nfun):
             out += self.function(i)
+            if self.pointers and ch.chance(1, 3, "mkfptr"):
+                name, n = self.funcs[-1]
+                params = ", ".join(["int"] * n) or "void"
+                out.append(f"int (*fp{i})({params}) = {name};")
+                self.fptrs.append((f"fp{i}", n))
         return "\n".join(out) + "\n"
 
 
-def gen_unit(ch, profile="rich"):
-    return CGen(ch, profile).unit()
+def gen_unit(ch, profile="rich", **kw):
+    return CGen(ch, profile, **kw).unit()
+
+
+def gen_project(ch, tag):
+    """A small multi-module program: a main unit calling functions that live
+    in separate library members (to be archived and pulled in by the linker),
+    plus an unused member."""
+    nmem = 2 + ch.draw(4, "nmembers")
+    members = []
+    for i in range(nmem):
+        body = ch.pick(["(a << 3) ^ b", "a * 31 + b", "a - b + 7",
+                        "(a & b) | 1", "a + b + 12345678"], "membody")
+        helper = ""
+        if ch.chance(1, 3, "memhelper"):
+            helper = f"static int h{tag}_{i}(int x) {{ return x + {i}; }}\n"
+            body = f"h{tag}_{i}({body})"
+        members.append(helper + f"int lib{i}(int a, int b) "
+                       f"{{ return {body}; }}\n")
+    used = [i for i in range(nmem) if not ch.chance(1, 4, "unusedmember")] \
+        or [0]
+    decl = "".join(f"extern int lib{i}(int a, int b);\n" for i in used)
+    calls = " + ".join(f"lib{i}(x, {i + 1})" for i in ch.perm(used, "callord"))
+    main = decl + f"int entry{tag}(int x) {{ return {calls}; }}\n"
+    return main, members
